@@ -26,6 +26,21 @@ def option_table():
     p = os.path.join(lib.LEAN, "InovesaModel", "Gen", "Options.lean")
     with open(p) as f:
         txt = f.read()
+    if "def cliGroups" not in txt:
+        # the option table of the working tree could not be translated (the proof obligation is already reported as
+        # broken): the SEARCH for a failing input still needs option names and types - take the last table that was
+        # translated (the committed copy, generated from the unchanged tree)
+        import subprocess
+        q = subprocess.run(["git", "-C", lib.VERIF, "show", "HEAD:lean/InovesaModel/Gen/Options.lean"],
+                           stdout=subprocess.PIPE, stderr=subprocess.DEVNULL, text=True)
+        fb = os.path.join(lib.VERIF, "check", "props", "options_table.fallback")
+        if q.returncode == 0 and "def cliGroups" in q.stdout:
+            txt = q.stdout
+        elif os.path.exists(fb):
+            with open(fb) as f:
+                txt = f.read()
+        else:
+            raise RuntimeError("option table neither translatable nor available from the last good translation")
     opts = []
     for m in re.finditer(r'\{ name := "([^"]*)", short := "([^"]*)", ty := \.(\w+), var := "([^"]*)", '
                          r'default := (none|some "([^"]*)"), implicit := (none|some "([^"]*)"), '
@@ -105,6 +120,8 @@ def compare_get(get, mvars, gmap):
 # ------------------------------------------------------------------ generation
 
 def sample_value(rng, ty, digits=5):
+    if ty in ("f32", "f64") and rng.random() < 0.12:
+        return "0"          # an option given explicitly with the value zero is still GIVEN
     if ty in ("f32", "f64", "vecf32"):
         mant = rng.randint(10 ** (digits - 1), 10 ** digits - 1)
         ex = rng.randint(-6, 6)
